@@ -344,7 +344,7 @@ def _label_set_sessions(dbg, table, path, image, answers, base, visited, w, cmds
                                'summary': f'w={w} {pname} labels asked={list(sub)} (table {table}): pauses {obs["pauses"]} instead of {exp["pauses"]}'})
 
     # breakpoints asked for by SUBSTRING (literal text, also text with characters that mean something in a regular expression)
-    subs = ['lab_', 'main.', 'm(1)', 'm.1', ')---', '(', 'zz_none', 'x1)']
+    subs = ['lab_', 'main.', 'm(1)', 'm.1', ')---', '(', 'zz_none', 'x1)', 'm', ':', 'start', 'memory', '-']   # (short / common words too: only the program's labels can match)
     for r in (1, 2):
         for sub in itertools.combinations(subs, r):
             want = {a for nm, a in table.items() if any(x in nm for x in sub)}
@@ -383,7 +383,7 @@ def debug_route_sessions(path, image, answers, base, visited, w, cmds, probe, pn
     step = [i for i, c in enumerate(cmds) if c[0] == 's'][0]
     addr_sets = [None, set(), {vs[2]}, {vs[0], max(visited) + 8 * w}]
     label_sets = [None, set(), {'lab_a'}, {'main.lab_b', 'zz_none'}]
-    sub_sets = [None, {'lab_'}, {'zz_none'}]
+    sub_sets = [None, {'lab_'}, {'zz_none'}, {'memory', 'start'}]
     # the same address sets with NO label information at all: no debug file, and a debug file holding an empty table
     empty_dbg = scratch() / f'c15-{w}-debugroute-empty.fjd'
     save_debugging_labels(empty_dbg, {})
